@@ -595,7 +595,11 @@ class SymStruct:
                     # bytes as fresh variables tied to the value by ONE linear equation
                     # (definitional: the base-256 digits of the two's complement are unique)
                     cx = ctx()
-                    if size == 1:
+                    if v.bits is not None and ch not in _SIGNED and len(v.bits) <= 8 * size:
+                        from .sym import _from_bits
+                        vb = list(v.bits) + [z3.BoolVal(False)] * (8 * size - len(v.bits))
+                        bs = [_from_bits(vb[8 * k:8 * k + 8]) for k in reversed(range(size))]
+                    elif size == 1:
                         bs = [v if ch not in _SIGNED else SymNum(z3.If(v.t < 0, v.t + 256, v.t))]
                     else:
                         bs = [cx.fresh_int("pk") for _ in range(size)]
@@ -686,6 +690,17 @@ class SymStruct:
                     continue
                 if order == "<":
                     bs = bs[::-1]
+                if ch not in _SIGNED and ch != "?" and any(isinstance(b, SymNum) and b.bits is not None for b in bs) \
+                        and all((isinstance(b, SymNum) and b.bits is not None and len(b.bits) <= 8) or isinstance(b, builtins.int) for b in bs):
+                    from .sym import _from_bits
+                    allbits = []
+                    for b in reversed(bs):
+                        if isinstance(b, builtins.int):
+                            allbits += [z3.BoolVal(bool((b >> i) & 1)) for i in range(8)]
+                        else:
+                            allbits += list(b.bits) + [z3.BoolVal(False)] * (8 - len(b.bits))
+                    out.append(_from_bits(allbits))
+                    continue
                 t = z3.IntVal(0)
                 for b in bs:
                     t = t * 256 + _lift(b).t
